@@ -10,13 +10,15 @@ def handle (input impl : Json) : R Reply := do
   let os := validObs rd.ctx limits rd.obs
   let err := (fieldD impl "err" (.str "")).getStr?.toOption.getD ""
   match fieldD impl "outcome" .null with
-  | .null =>
-    let prevBad := rd.hasPrev && !validOutcome rd.ctx limits rd.prev
-    pure { agree := prevBad, specModel := true, specImpl := prevBad,
-           diff := s!"implementation error: {err}", fail := if prevBad then "" else s!"Outcome failed: {err}",
-           nontrivial := false, tags := ["impl-error"] }
+  | .null => pure (refusedReply rd err)
   | oj =>
     let got ← outcome oj
+    if acceptedBadPrev rd then
+      -- a broken correspondence, not by itself a failing input of this property (its statement speaks of valid inputs)
+      return { agree := false, specModel := true, specImpl := true,
+               diff := s!"the previous outcome ({rd.prevMode}) does not decode and validate, yet Outcome returned {showOutcome got}",
+               fail := "",
+               nontrivial := true, tags := ["accepted-bad-prev:" ++ rd.prevMode] }
     let agree := decide (got.surfaced = want.surfaced)
     -- the spec is evaluated with the implementation's own agreed performables (C01 judges those)
     let si := spec rd.ctx limits rd.prev os got.agreed got.surfaced
